@@ -210,6 +210,8 @@ def assumption_scan(asm):
             o = asm.out.origin[n]
             if o and o[0] == 'prelude':
                 listed.append(f'{o[1]}:{o[2]}: {ln.strip()}')
+            elif o and o[0] == 'attr' and 'exec_allows_no_decreases_clause' in code:
+                listed.append(f'TERMINATION NOT CHECKED for {o[1]} (attribute exec_allows_no_decreases_clause set by the unit file)')
             else:
                 illegal.append(f'gen line {n + 1} ({o}): {ln.strip()}')
     return listed, illegal
